@@ -507,7 +507,8 @@ class Assembler:
             else:
                 raise LostAnchor('%s:%d: unknown fn sub-directive %s' % (rel, no, cmd))
         if self.vacuity:
-            vac = [(lineno, 'false, // vacuity twin', dict(kind='contract', file=rel, line=lineno, fn=key, clause_kind='vacuity', tags=None))]
+            self.vac_n = getattr(self, 'vac_n', 0) + 1
+            vac = [(lineno, 'vac_marker(%d), // vacuity twin: unprovable unless the context is contradictory' % self.vac_n, dict(kind='contract', file=rel, line=lineno, fn=key, clause_kind='vacuity', tags=None))]
             if spec_lines is None:
                 spec_lines = []
             idx = None
